@@ -32,7 +32,7 @@ def operator_words(repo):
 def check_keyword_names(repo, rep, uni):
     lex = repo.module('yaql.language.lexer')
     kw = lex.func('Lexer.t_KEYWORD_STRING')
-    pat = ast.get_docstring(kw.node, clean=False)
+    pat = grammar.effective_token_regex(kw.name)
     langs = regexlang.Languages({'kw': (pat, V)})
     words = operator_words(repo)
     n = 0
